@@ -185,6 +185,16 @@ pub fn check_value(v: &Value, quick: bool, cnt: &Cnt) -> Vec<(String, String)> {
             f.extend(fw);
         }
     }
+    // the same bytes read as a LazyValue (the undecoded bytes of one value): slice and stream must agree too
+    if crate::c05::array_of_compound(v).is_none() && !crate::c05::zero_width_array(v) {
+        let fl = agree::<serde_amqp::lazy::LazyValue, _>("lazy", "value", &trunc(&format!("{:?}", v)), &enc, Ok(enc.len()), true, cnt, |a, b| a.as_slice() == b.as_slice());
+        f.extend(fl);
+        if let Ok(Ok(l)) = catch(|| serde_amqp::from_slice::<serde_amqp::lazy::LazyValue>(&enc)) {
+            if l.as_slice() != &enc[..] {
+                f.push(("lazy-bytes-differ value".to_string(), format!("from_slice::<LazyValue> of {} holds {}", hex(&enc), hex(l.as_slice()))));
+            }
+        }
+    }
     // to_value is the identity on Value; from_value::<Value> too
     match catch(|| serde_amqp::to_value(v)) {
         Ok(Ok(tv)) => {
